@@ -87,8 +87,12 @@ impl fmt::Display for Expression {
     fn fmt(&self, f: &mut fmt::Formatter<'_>) -> fmt::Result {
         let mut syms = default_symbol_table();
         let expr = self.convert(&mut syms);
-        let s = expr.print(&syms).unwrap();
-        write!(f, "{}", s)
+        match expr.print(&syms) {
+            Some(s) => write!(f, "{}", s),
+            // a malformed operation sequence (such expressions can be carried by a token or
+            // a snapshot) has no source form
+            None => write!(f, "<invalid expression: {:?}>", expr.ops),
+        }
     }
 }
 
